@@ -25,4 +25,12 @@ PROPS = {
         design_ref="7/C19",
         trusted=["Go slice append/range semantics as modelled by list append / traversal"],
     ),
+    "C14": dict(
+        props="Props/C14.v", module="Props.C14", harness="C14",
+        n_quick=900, n_thorough=8000,
+        model_files=["Model/IriEq.v", "Model/Url.v", "Model/Bytes.v", "Model/Vocab.v"],
+        go_funcs=["IRI.Equals", "irisEqual", "stripFragment", "stripScheme", "IRIs.Contains"],
+        design_ref="7/C14",
+        trusted=["net/url.Parse, URL.Query, path/filepath.Clean, strings.EqualFold (ASCII): modelled on the grammar stated in Model/Url.v and compared with the real libraries on every run (Cases_C14_lib); layer-1 theorems do not depend on that model"],
+    ),
 }
